@@ -230,7 +230,7 @@ def replay_routine(inp):
         return False, "returned None"
     ok = isinstance(res, tuple) and len(res) == 3 and all(isinstance(x, int) and 0 <= x <= 255 for x in res)
     de = delta_e_2000_rgb(t, res) if ok else None
-    bad = (not ok) or de > tol + 0.05
+    bad = (not ok) or de > tol + 0.002      # slack: the implementation's dE differs from the reference by < 2e-4
     return bad, "%s(%r,%r,tol=%r,target=%r) -> %r, reference dE=%r" % (job["kind"], t, b, tol, target, res, de)
 
 
@@ -285,12 +285,12 @@ def replay_strategy(inp):
 
 def _ladder_routine(job):
     from ..ladder import pairs
-    for tol in (0.5, 0.8, 1.4, 2.0, 3.0, 5.0):
-        for target in (4.5, 7.0):
+    for tol in (2.46, 0.96, 4.92, 0.5, 0.8, 1.4, 2.0, 3.0, 5.0):
+        for target in (21.0, 7.0, 4.5):
             for t, b in pairs():
                 d = dict(tr=t[0], tg=t[1], tb=t[2], br=b[0], bg=b[1], bb=b[2], tol=tol, target=target, minc=target)
                 for i in range(job.get("ks", 0)):
-                    d["tol%d" % i] = tol * (i + 1) / job["ks"]
+                    d["tol%d" % i] = tol if i == job["ks"] - 1 else round(tol * (i + 1) / job["ks"], 3)
                 yield d
 
 
